@@ -114,6 +114,7 @@ def run(tier):
             t["events"] = r["events"]
             t["exc"] = r["exc"]
             t["ret"] = r["ret"]
+            t["refs"] = r.get("refs") or {"args": [], "res": []}
             traces.append(t)
         controls = []
         for t in traces:
